@@ -290,8 +290,10 @@ def compare(ctx, t, kind, phase, exp, got, witness, pattern):
       return True
     clause, diff = 'wrong-arguments', first_difference(t, exp[1], got[1])
     mech = f'{kind}.{pattern}:{diff}'
-    if diff == 'decorator-effect':
-      clause, mech = 'wrong-result', f'{kind}:{diff}'
+    if t.decorated:
+      # (one key for the decorated callable: the pattern and the parameter are in the detail)
+      clause, mech = 'wrong-result', f'{kind}:result'
+      witness = dict(witness, first_difference=diff)
     ctx.violation(clause, mech,
                   f'plain: {exp[1]!r:.300}\nsymbolic: {plain(got[1])!r:.300}', witness)
     return False
@@ -308,7 +310,7 @@ def compare(ctx, t, kind, phase, exp, got, witness, pattern):
                   witness)
     return False
   if exp[0] == 'ok':
-    ctx.violation('rejects-valid', f'{kind}.{phase}:{pattern}',
+    ctx.violation('rejects-valid', f'{kind}.{phase}' if t.decorated else f'{kind}.{phase}:{pattern}',
                   f'plain returns {exp[1]!r:.200}; symbolic raised {got[0]}: {got[1]!s:.300}', witness)
     return False
   ctx.violation('error-kind', f'{kind}.{phase}:{exp[1]}',
